@@ -10,7 +10,7 @@ EXTENDS C04, Lru
 
 \* ----------------------------------------------------------------- reference hostname helpers
 RefNormHost(labels, amp) == LET a == StripSubdomains(labels, amp)
-                                b == IF amp THEN StripAmpDash(a) ELSE a
+                                b == IF amp THEN HostLabels(JoinWith(StripAmpDash(a), 46)) ELSE a
                             IN IF amp /\ b # a THEN StripSubdomains(b, amp) ELSE b       \* 'amp-www.x.com': what follows 'amp-' can be irrelevant too
 RefFpHost(labels, ss) == LET a == StripLang(RefNormHost(labels, TRUE)) IN IF ss THEN StripSuffixLabels(a) ELSE a
 HostLabelsOfUrl(s) == HostLabels(NetParts(Split(IF HasProtocol(s) THEN s ELSE <<47, 47>> \o s).netloc).host)
